@@ -18,9 +18,9 @@ MIRI_TIMEOUT = 2400
 
 MIRI_MODES = {
     # mode: (cases per shard, what the workload is)
-    "codec": (40, "canonical codec workload (x ~12 encode/decode calls per case incl. mutated inputs and MaybeUninit array paths)"),
-    "compress": (12, "fuel-compression [T; S] compress/decompress workload (MaybeUninit arrays, context failing at every call index, heap-owning elements)"),
-    "merkle": (5, "in-memory sparse and binary Merkle tree workload (MerkleTreeKey constructors, update/delete/proof/verify)"),
+    "codec": (200, "canonical codec workload (x ~12 encode/decode calls per case incl. mutated inputs and MaybeUninit array paths)"),
+    "compress": (60, "fuel-compression [T; S] compress/decompress workload (MaybeUninit arrays, context failing at every call index, heap-owning elements)"),
+    "merkle": (12, "in-memory sparse and binary Merkle tree workload (MerkleTreeKey constructors, update/delete/proof/verify)"),
 }
 
 
